@@ -362,3 +362,65 @@ Fixpoint small_ints (v : value) : bool :=
                  match m with [] => true | (_, x) :: r => small_ints x && go r end) m
   | _ => true
   end.
+
+(* ---------- definedness by kinds, against the regenerated operator matrices ---------- *)
+
+Definition is_num_kind (k : kind) : bool := match k with KInt | KFloat => true | _ => false end.
+
+Definition lt_kinds_ok (ka kb : kind) : bool :=
+  match ka, kb with
+  | KStr, KStr => true
+  | _, _ => is_num_kind ka && is_num_kind kb
+  end.
+
+(* the operators of value.New() that are operation matrices (the others are closures over = and <) *)
+Definition matrix_ops : list name :=
+  [op_or; op_and; op_eq; op_lt; op_add; op_sub; op_shl; op_shr; op_mul; op_mod; op_div; op_pow].
+
+(* does the operator accept this pair of kinds at all (wrappers of = and + included)? *)
+Definition kind_defined (op : name) (ka kb : kind) : bool :=
+  if str_eqb op op_or || str_eqb op op_and then
+    match ka, kb with KInt, KInt | KBool, KBool => true | _, _ => false end
+  else if str_eqb op op_eq then eq_kinds_ok ka kb
+  else if str_eqb op op_lt then lt_kinds_ok ka kb
+  else if str_eqb op op_add then
+    match ka, kb with
+    | KStr, _ | KList, KList | KMap, KMap => true
+    | _, _ => is_num_kind ka && is_num_kind kb
+    end
+  else if str_eqb op op_sub || str_eqb op op_mul || str_eqb op op_div || str_eqb op op_pow then
+    is_num_kind ka && is_num_kind kb
+  else if str_eqb op op_shl || str_eqb op op_shr || str_eqb op op_mod then
+    match ka, kb with KInt, KInt => true | _, _ => false end
+  else false.
+
+(* the same question answered by a dumped table: (operator, (wrapper, registered type-id pairs)) *)
+Definition op_table := list (str * (N * list (N * N))).
+
+Definition wrapper_accepts (w : N) (ka kb : kind) : bool :=
+  match w with
+  | 1%N => match ka, kb with KList, KList | KMap, KMap => true | _, _ => false end   (* deepEqual *)
+  | 2%N => match ka with KStr => true | _ => false end                               (* stringAdd *)
+  | _ => false
+  end.
+
+Definition registered (tbl : op_table) (op : name) (ka kb : kind) : bool :=
+  match assoc op tbl with
+  | Some (w, pairs) =>
+      existsb (fun p => (fst p =? kind_id ka)%N && (snd p =? kind_id kb)%N) pairs || wrapper_accepts w ka kb
+  | None => false
+  end.
+
+Definition definedness_matches (tbl : op_table) : bool :=
+  forallb (fun op =>
+    forallb (fun ka =>
+      forallb (fun kb => Bool.eqb (registered tbl op ka kb) (kind_defined op ka kb)) all_kinds) all_kinds)
+    matrix_ops.
+
+(* candidate inputs when the obligation fails: (operator index, left kind id, right kind id) *)
+Definition definedness_mismatches (tbl : op_table) : list (N * (N * N)) :=
+  flat_map (fun op =>
+    flat_map (fun ka =>
+      flat_map (fun kb => if Bool.eqb (registered tbl op ka kb) (kind_defined op ka kb) then []
+                          else [(N.of_nat (length op), (kind_id ka, kind_id kb))]) all_kinds) all_kinds)
+    matrix_ops.
